@@ -12,8 +12,10 @@ import (
 	"math/rand/v2"
 	"net"
 	"net/netip"
+	"net/url"
 	"os"
 	"path/filepath"
+	"runtime"
 	"sort"
 	"strings"
 	"sync"
@@ -61,6 +63,7 @@ func main() {
 	fsCampaign(o, r, m)
 	concCampaign(o, r, m)
 	stackCampaign(o, r, m)
+	cstackCampaign(o, r, m)
 
 	r.ModelOps = len(m.Log)
 	r.Finish()
@@ -594,6 +597,7 @@ func fsCampaign(o *hlib.Opts, r *hlib.Result, m *hlib.Model) {
 			}
 			lines[i] = "line " + rn + " " + entryTokens(e, e.Elapsed.Milliseconds())
 		}
+		checkReader(r, m, chunks)
 		answers := m.Batch(lines)
 		for i := range entries {
 			if got := unhx(answers[i]); !bytes.Equal(got, chunks[i]) {
@@ -625,6 +629,98 @@ func countEntry(r *hlib.Result, c string, e *querylog.Entry) {
 	}
 	if needsEscape(e.DomainFQDN) || needsEscape(rule) || needsEscape(string(e.ProfileID)) {
 		r.Count(c + ".hostile_strings")
+	}
+}
+
+// checkReader runs the specification's independent line reader (lexLine, the
+// subject of theorem line_integrity) on lines written by the real FileSystem
+// and compares what it finds, member by member and in order, with
+// encoding/json's token stream; it also feeds it damaged lines, which it must
+// reject whenever encoding/json does.
+func checkReader(r *hlib.Result, m *hlib.Model, chunks [][]byte) {
+	ops := make([]string, 0, 2*len(chunks))
+	var damaged [][]byte
+	for i, c := range chunks {
+		ops = append(ops, "lex "+hx(string(c)))
+		if len(c) > 4 {
+			d := append([]byte{}, c...)
+			switch i % 4 {
+			case 0:
+				d = d[:len(d)/2]
+			case 1:
+				d[len(d)/2] = '"'
+			case 2:
+				d = append(d[:len(d)-1], c...)
+			default:
+				d[len(d)/3] = '\n'
+			}
+			damaged = append(damaged, d)
+		}
+	}
+	for _, d := range damaged {
+		ops = append(ops, "lex "+hx(string(d)))
+	}
+	answers := m.Batch(ops)
+	for i, c := range chunks {
+		replay := map[string]any{"campaign": "reader", "ops": []string{ops[i]}}
+		if answers[i] == "none" {
+			r.Disagree("reader-rejects-real-line", fmt.Sprintf("the specification's reader rejects the real line %q", truncateB(c, 300)), replay)
+
+			continue
+		}
+		dec := json.NewDecoder(bytes.NewReader(c))
+		dec.UseNumber()
+		var want []string
+		if tok, err := dec.Token(); err != nil || tok != json.Delim('{') {
+			continue // reported by checkLine
+		}
+		for dec.More() {
+			k, err1 := dec.Token()
+			v, err2 := dec.Token()
+			if err1 != nil || err2 != nil {
+				break
+			}
+			want = append(want, fmt.Sprintf("%v=%v", k, v))
+		}
+		var got []string
+		for _, f := range strings.Fields(answers[i]) {
+			kv := strings.SplitN(f, "=", 2)
+			if len(kv) != 2 || len(kv[1]) < 2 {
+				got = append(got, "?")
+
+				continue
+			}
+			raw := unhx(kv[1][2:])
+			val := string(raw)
+			if kv[1][0] == 's' {
+				if err := json.Unmarshal([]byte(`"`+string(raw)+`"`), &val); err != nil {
+					val = "UNDECODABLE:" + string(raw)
+				}
+			}
+			got = append(got, string(unhx(kv[0]))+"="+val)
+		}
+		if strings.Join(got, "\x00") != strings.Join(want, "\x00") {
+			r.Disagree("reader-differs", fmt.Sprintf("line %q: encoding/json reads %q, the specification's reader %q", truncateB(c, 300), want, got), replay)
+		}
+		r.Count("reader.real_lines")
+	}
+	for j, d := range damaged {
+		ans := answers[len(chunks)+j]
+		var obj map[string]any
+		jsonOK := false
+		if len(d) > 0 && d[len(d)-1] == '\n' && !bytes.ContainsAny(d[:len(d)-1], "\n") {
+			dd := json.NewDecoder(bytes.NewReader(d))
+			jsonOK = dd.Decode(&obj) == nil && !dd.More()
+		}
+		if !jsonOK && ans != "none" {
+			r.Disagree("reader-accepts-damaged-line", fmt.Sprintf("the specification's reader accepts %q", truncateB(d, 300)),
+				map[string]any{"campaign": "reader", "ops": []string{ops[len(chunks)+j]}})
+		}
+		if ans == "none" {
+			r.Count("reader.damaged_rejected")
+		} else {
+			r.Count("reader.damaged_still_valid")
+		}
 	}
 }
 
@@ -906,6 +1002,9 @@ func describe(m *dns.Msg) (d respDesc) {
 
 // mkAnswer builds a response to req described by d.
 func mkAnswer(req *dns.Msg, d respDesc, variant int, addr net.IP) *dns.Msg {
+	// Fresh slices: the production cloner pools records and reuses their
+	// address arrays.
+	addr = append(net.IP(nil), addr...)
 	resp := (&dns.Msg{}).SetReply(req)
 	resp.Rcode = d.rcode
 	resp.AuthenticatedData = d.ad
@@ -918,7 +1017,8 @@ func mkAnswer(req *dns.Msg, d respDesc, variant int, addr net.IP) *dns.Msg {
 		case 0:
 			resp.Answer = append(resp.Answer, &dns.A{Hdr: hdr(dns.TypeA), A: addr})
 		case 1:
-			resp.Answer = append(resp.Answer, &dns.AAAA{Hdr: hdr(dns.TypeAAAA), AAAA: net.ParseIP("2001:db8:77::" + fmt.Sprint(addr[len(addr)-1]))})
+			resp.Answer = append(resp.Answer, &dns.AAAA{Hdr: hdr(dns.TypeAAAA),
+				AAAA: net.IP{0x20, 0x01, 0x0d, 0xb8, 0, 0x77, 0, 0, 0, 0, 0, 0, 0, 0, addr[len(addr)-2], addr[len(addr)-1]}})
 		default:
 			resp.Answer = append(resp.Answer, &dns.TXT{Hdr: hdr(dns.TypeTXT), Txt: []string{"x"}},
 				&dns.HTTPS{SVCB: dns.SVCB{Hdr: hdr(dns.TypeHTTPS), Priority: 1, Target: ".",
@@ -928,7 +1028,7 @@ func mkAnswer(req *dns.Msg, d respDesc, variant int, addr net.IP) *dns.Msg {
 		if variant%2 == 0 {
 			resp.Answer = append(resp.Answer, &dns.A{Hdr: hdr(dns.TypeA), A: net.IP{0, 0, 0, 0}})
 		} else {
-			resp.Answer = append(resp.Answer, &dns.AAAA{Hdr: hdr(dns.TypeAAAA), AAAA: net.IPv6unspecified})
+			resp.Answer = append(resp.Answer, &dns.AAAA{Hdr: hdr(dns.TypeAAAA), AAAA: make(net.IP, 16)})
 		}
 	default:
 		if variant%2 == 0 {
@@ -967,44 +1067,70 @@ func (w *recRW) WriteMsg(_ context.Context, _, resp *dns.Msg) error {
 
 // spec is one scripted request.
 type spec struct {
-	srv                                                 string // dns | dot | dnsif
-	port0                                               bool
-	devKind                                             string // anon | ok | authfail | unknown | error
-	qlog, iplog                                         bool
-	profID, devID                                       string
-	gbi, gbh, pb, rlDrop, allowlisted                   bool
-	special, debug, adWanted, ctxErr, upErr, writeErr   bool
-	reqKind, respKind                                   int
-	reqList, reqRule, respList, respRule                string
-	name                                                string
-	qtype                                               uint16
-	ip                                                  netip.Addr
-	idx                                                 int
-	startMs                                             int64
-	hasLoc                                              bool
-	locCtry                                             string
-	locASN                                              uint32
-	orig, mod                                           respDesc
-	origVariant                                         int
-	geoCtry                                             string
-	gotReq, gotResp                                     filter.Result
-	filterReqCalls, filterRespCalls, upstreamCalls      int
-	cancel                                              context.CancelFunc
+	srv                                               string // dns | dot | dnsif | doh | doq | dnscrypt
+	port0                                             bool
+	devKind                                           string // anon | ok | authfail | deleted | unknown | error
+	qlog, iplog                                       bool
+	profID, devID                                     string
+	gbi, gbh, pb, rlDrop, allowlisted                 bool
+	profRl                                            int // 0 use global, 1 pass, 2 drop
+	ecs                                               int // 0 none, 1 valid, 2 malformed
+	blockMode                                         int // index into blockModes
+	special, debug, adWanted, ctxErr, upErr, writeErr bool
+	reqKind, respKind                                 int
+	reqList, reqRule, respList, respRule              string
+	name                                              string
+	qtype                                             uint16
+	ip                                                netip.Addr
+	idx                                               int
+	startMs                                           int64
+	hasLoc                                            bool
+	locCtry                                           string
+	locASN                                            uint32
+	orig, mod                                         respDesc
+	origVariant                                       int
+	geoCtry                                           string
+	respAddr                                          net.IP
+	gotReq, gotResp                                   filter.Result
+	filterReqCalls, filterRespCalls, upstreamCalls    int
+	cancel                                            context.CancelFunc
+	// results
+	line    string
+	blocked respDesc
+	rw      *recRW
+	serr    error
+	mu      sync.Mutex
+	logs    []logged
 }
 
 var kinds = []string{"none", "allowed", "blocked", "modresp", "modreq"}
 
 var clientIPs = []string{"10.0.0.1", "10.0.0.2", "198.51.100.7", "2001:db8:1::5", "203.0.113.200", "::ffff:10.9.8.7"}
 
+const globallyBlockedIP = "203.0.113.66"
+
 var names = []string{"example.com.", "Example.ORG.", "blocked.example.", "a.b.c.d.example.net.", "xn--e1afmkfd.xn--p1ai.",
 	"we\\032ird\\.label.example.", "\\000\\010\\\"q.example.", "<script>.example.", "."}
 
 var countries = []string{"", "AD", "RU", "US", "XK", "QN"}
 
-func genSpec(rng *rand.Rand, idx int) *spec {
+// blockModes are the blocking modes of a profile; customBad has an address
+// of the wrong family, so that NewBlockedResp fails for A queries.
+var blockModes = []dnsmsg.BlockingMode{
+	&dnsmsg.BlockingModeNullIP{},
+	&dnsmsg.BlockingModeNXDOMAIN{},
+	&dnsmsg.BlockingModeREFUSED{},
+	&dnsmsg.BlockingModeCustomIP{IPv4: []netip.Addr{netip.MustParseAddr("198.51.100.9")}, IPv6: []netip.Addr{netip.MustParseAddr("2001:db8:99::9")}},
+	&dnsmsg.BlockingModeCustomIP{IPv4: []netip.Addr{netip.MustParseAddr("2001:db8:99::bad")}},
+}
+
+var srvProto = map[string]agd.Protocol{"dns": agd.ProtoDNS, "dot": agd.ProtoDoT, "dnsif": agd.ProtoDNS, "doh": agd.ProtoDoH,
+	"doq": agd.ProtoDoQ, "dnscrypt": agd.ProtoDNSCrypt}
+
+func genSpec(rng *rand.Rand, idx int, conc bool) *spec {
 	s := &spec{
-		srv:         []string{"dns", "dns", "dot", "dnsif"}[rng.IntN(4)],
-		devKind:     []string{"anon", "ok", "ok", "ok", "ok", "authfail", "error", "unknown"}[rng.IntN(8)],
+		srv:         []string{"dns", "dns", "dns", "dot", "dnsif", "doh", "doq", "dnscrypt"}[rng.IntN(8)],
+		devKind:     []string{"anon", "ok", "ok", "ok", "ok", "ok", "ok", "authfail", "error", "unknown", "deleted"}[rng.IntN(11)],
 		qlog:        rng.IntN(3) > 0,
 		iplog:       rng.IntN(2) == 0,
 		profID:      []string{"prof1234", "profAAAA", "p\"x\n"}[rng.IntN(3)],
@@ -1014,9 +1140,9 @@ func genSpec(rng *rand.Rand, idx int) *spec {
 		reqList:     lists[rng.IntN(len(lists))],
 		respList:    lists[rng.IntN(len(lists))],
 		reqRule:     []string{"", "||example.com^", "@@||a^", "|x|\n\"<&>\\", "\xff\xfe rule"}[rng.IntN(5)],
-		respRule:    []string{"", "||cname.example^", "1.2.3.4", " resp"}[rng.IntN(4)],
+		respRule:    []string{"", "||cname.example^", "1.2.3.4", " resp"}[rng.IntN(4)],
 		name:        names[rng.IntN(len(names))],
-		qtype:       []uint16{dns.TypeA, dns.TypeA, dns.TypeAAAA, dns.TypeTXT, dns.TypeHTTPS}[rng.IntN(5)],
+		qtype:       []uint16{dns.TypeA, dns.TypeA, dns.TypeAAAA, dns.TypeTXT, dns.TypeHTTPS, dns.TypeMX, dns.TypePTR, dns.TypeSVCB, dns.TypeCAA, 65280}[rng.IntN(10)],
 		ip:          netip.MustParseAddr(clientIPs[rng.IntN(len(clientIPs))]),
 		idx:         idx,
 		startMs:     []int64{1628590394000, 1700000000123, 1, time.Now().UnixMilli() + 3600000}[rng.IntN(4)],
@@ -1027,17 +1153,20 @@ func genSpec(rng *rand.Rand, idx int) *spec {
 		mod:         respDesc{rcode: []int{0, 0, 3}[rng.IntN(3)], ad: false, ip: []string{"addr", "unspec", "none"}[rng.IntN(3)]},
 		origVariant: rng.IntN(6),
 		geoCtry:     countries[rng.IntN(len(countries))],
+		profRl:      []int{0, 0, 0, 0, 0, 0, 1, 1, 2}[rng.IntN(9)],
+		ecs:         []int{0, 0, 0, 0, 0, 0, 0, 0, 1, 1, 2}[rng.IntN(11)],
+		blockMode:   []int{0, 0, 0, 1, 2, 3, 4, 4}[rng.IntN(8)],
 	}
 	if s.srv == "dnsif" {
 		// Dedicated-address server: found, unknown or failing lookups.
-		s.devKind = []string{"ok", "ok", "unknown", "error"}[rng.IntN(4)]
+		s.devKind = []string{"ok", "ok", "unknown", "error", "deleted"}[rng.IntN(5)]
 	} else if s.devKind == "unknown" {
 		s.devKind = "anon"
 	}
 	one := func(p int) bool { return rng.IntN(p) == 0 }
 	s.port0 = one(25)
-	s.gbi, s.gbh, s.pb = one(15), one(15), one(8)
-	s.rlDrop = one(8)
+	s.gbi, s.gbh, s.pb = one(25), one(25), one(12)
+	s.rlDrop = one(10)
 	s.allowlisted = one(6)
 	s.special = one(15)
 	s.debug = one(10)
@@ -1051,17 +1180,26 @@ func genSpec(rng *rand.Rand, idx int) *spec {
 	if s.gbh {
 		s.name = "globally-blocked.example."
 	}
+	// Addresses carry the request's identity to the fakes that get no context.
+	s.respAddr = net.IP{198, 18, byte(idx >> 8), byte(idx)}
+	if conc {
+		s.ip = netip.AddrFrom4([4]byte{10, 77, byte(idx >> 8), byte(idx)})
+		if idx%3 == 0 {
+			s.ip = netip.AddrFrom16([16]byte{0x20, 0x01, 0xd, 0xb8, 0, 0x55, 14: byte(idx >> 8), 15: byte(idx)})
+		}
+	} else if s.gbi {
+		s.ip = netip.MustParseAddr(globallyBlockedIP)
+	}
 
 	return s
 }
 
-func (s *spec) proto() agd.Protocol {
-	if s.srv == "dot" {
-		return agd.ProtoDoT
-	}
+func (s *spec) proto() agd.Protocol { return srvProto[s.srv] }
 
-	return agd.ProtoDNS
-}
+// attributedIn is the harness's own reading of the documentation: the query
+// belongs to a profile if the lookup found a live profile and device, the
+// device authenticated, and the protocol can carry a device ID at all.
+func (s *spec) attributedIn() bool { return s.devKind == "ok" && s.srv != "dnscrypt" }
 
 func (s *spec) request() *dns.Msg {
 	req := &dns.Msg{}
@@ -1073,6 +1211,16 @@ func (s *spec) request() *dns.Msg {
 		qc = dns.ClassCHAOS
 	}
 	req.Question = []dns.Question{{Name: s.name, Qtype: s.qtype, Qclass: qc}}
+	switch s.ecs {
+	case 1:
+		req.SetEdns0(1232, false)
+		opt := req.IsEdns0()
+		opt.Option = append(opt.Option, &dns.EDNS0_SUBNET{Code: dns.EDNS0SUBNET, Family: 1, SourceNetmask: 24, Address: net.IP{198, 51, 100, 0}})
+	case 2:
+		req.SetEdns0(1232, false)
+		opt := req.IsEdns0()
+		opt.Option = append(opt.Option, &dns.EDNS0_SUBNET{Code: dns.EDNS0SUBNET, Family: 3, SourceNetmask: 24, Address: net.IP{198, 51, 100, 0}})
+	}
 
 	return req
 }
@@ -1085,7 +1233,7 @@ func (s *spec) mkRes(kind int, list, rule string, req *dns.Msg) filter.Result {
 	case "blocked":
 		return &filter.ResultBlocked{List: l, Rule: t}
 	case "modresp":
-		return &filter.ResultModifiedResponse{Msg: mkAnswer(req, s.mod, 0, net.IP{192, 0, 2, 55}), List: l, Rule: t}
+		return &filter.ResultModifiedResponse{Msg: mkAnswer(req, s.mod, 0, s.respAddr), List: l, Rule: t}
 	case "modreq":
 		mod := req.Copy()
 		mod.Question[0].Name = "rewritten.example."
@@ -1103,49 +1251,116 @@ type logged struct {
 
 type fixture struct {
 	st      *stack.Stack
+	conc    bool
 	cur     *spec
+	byID    sync.Map // agd.RequestID -> *spec
+	byAddr  sync.Map // netip.Addr -> *spec
 	msgs    *dnsmsg.Constructor
+	modeMsg []*dnsmsg.Constructor
 	servers map[string]*agd.Server
-	logs    []logged
+	fs      *querylog.FileSystem
 	logPath string
 	logOff  int64
+	orphans atomicCounter
 }
+
+type atomicCounter struct {
+	mu sync.Mutex
+	n  int
+}
+
+func (c *atomicCounter) inc() { c.mu.Lock(); c.n++; c.mu.Unlock() }
 
 var errGeneric = errors.New("verif: profile db failure")
 
-func isRespIP(ip netip.Addr) bool {
-	return netip.MustParsePrefix("192.0.2.0/24").Contains(ip) || netip.MustParsePrefix("2001:db8:77::/48").Contains(ip)
+var respNets = []netip.Prefix{netip.MustParsePrefix("198.18.0.0/15"), netip.MustParsePrefix("2001:db8:77::/48")}
+
+func isRespIP(ip netip.Addr) bool { return respNets[0].Contains(ip) || respNets[1].Contains(ip) }
+
+// yield lets other goroutines run in the middle of a request in the concurrent
+// campaign, so that pooled objects are contended.
+func (f *fixture) yield() {
+	if f.conc {
+		runtime.Gosched()
+	}
 }
 
-func newFixture(seed uint64) (f *fixture) {
-	f = &fixture{servers: map[string]*agd.Server{}}
+// specCtx returns the scripted request a fake is being called for.
+func (f *fixture) specCtx(ctx context.Context) *spec {
+	if !f.conc {
+		return f.cur
+	}
+	id, _ := agd.RequestIDFromContext(ctx)
+	v, ok := f.byID.Load(id)
+	if !ok {
+		panic("verif: fake called for an unknown request")
+	}
+
+	return v.(*spec)
+}
+
+// specAddr is specCtx for the fakes that only get an address.
+func (f *fixture) specAddr(ip netip.Addr) *spec {
+	if !f.conc {
+		return f.cur
+	}
+	if ip.Is6() && respNets[1].Contains(ip) {
+		b := ip.As16()
+		ip = netip.AddrFrom4([4]byte{198, 18, b[14], b[15]})
+	}
+	v, ok := f.byAddr.Load(ip)
+	if !ok {
+		return nil
+	}
+
+	return v.(*spec)
+}
+
+type fakeRL struct{ res agd.RatelimitResult }
+
+func (r fakeRL) Check(context.Context, *dns.Msg, netip.Addr) agd.RatelimitResult { return r.res }
+func (r fakeRL) Config() *agd.RatelimitConfig                                     { return &agd.RatelimitConfig{} }
+func (r fakeRL) CountResponses(context.Context, *dns.Msg, netip.Addr)             {}
+
+func newFixture(seed uint64, conc bool) (f *fixture) {
+	f = &fixture{servers: map[string]*agd.Server{}, conc: conc}
 	cloner := agdtest.NewCloner()
-	var err error
-	f.msgs, err = dnsmsg.NewConstructor(&dnsmsg.ConstructorConfig{
-		Cloner:              cloner,
-		BlockingMode:        &dnsmsg.BlockingModeNullIP{},
-		StructuredErrors:    agdtest.NewSDEConfig(true),
-		FilteredResponseTTL: 10 * time.Second,
-		EDEEnabled:          true,
-	})
-	hlib.Must(err)
-	pb := new(bool)
-	lookup := func() (*agd.Profile, *agd.Device, error) {
-		s := f.cur
-		*pb = s.pb
+	mkMsgs := func(mode dnsmsg.BlockingMode) *dnsmsg.Constructor {
+		c, err := dnsmsg.NewConstructor(&dnsmsg.ConstructorConfig{
+			Cloner:              cloner,
+			BlockingMode:        mode,
+			StructuredErrors:    agdtest.NewSDEConfig(true),
+			FilteredResponseTTL: 10 * time.Second,
+			EDEEnabled:          true,
+		})
+		hlib.Must(err)
+
+		return c
+	}
+	f.msgs = mkMsgs(&dnsmsg.BlockingModeNullIP{})
+	for _, mode := range blockModes {
+		f.modeMsg = append(f.modeMsg, mkMsgs(mode))
+	}
+	lookup := func(ctx context.Context) (*agd.Profile, *agd.Device, error) {
+		s := f.specCtx(ctx)
+		f.yield()
 		switch s.devKind {
-		case "ok", "authfail":
+		case "ok", "authfail", "deleted":
 			dev := &agd.Device{Auth: &agd.AuthSettings{PasswordHash: agdpasswd.AllowAuthenticator{}}, ID: agd.DeviceID(s.devID),
 				FilteringEnabled: true}
 			if s.devKind == "authfail" {
+				// Authentication that no scripted request can pass: DoH only,
+				// and the DoH requests carry no credentials.
 				dev.Auth = &agd.AuthSettings{Enabled: true, DoHAuthOnly: true, PasswordHash: agdpasswd.AllowAuthenticator{}}
 			}
+			blocked := s.pb
 			prof := &agd.Profile{
 				FilterConfig: &filter.ConfigClient{Custom: &filter.ConfigCustom{}, Parental: &filter.ConfigParental{},
 					RuleList: &filter.ConfigRuleList{}, SafeBrowsing: &filter.ConfigSafeBrowsing{}},
-				Access: fakeAccess{blocked: pb}, BlockingMode: &dnsmsg.BlockingModeNullIP{}, Ratelimiter: agd.GlobalRatelimiter{},
-				ID: agd.ProfileID(s.profID), DeviceIDs: []agd.DeviceID{dev.ID}, FilteredResponseTTL: 10 * time.Second,
-				FilteringEnabled: true, QueryLogEnabled: s.qlog, IPLogEnabled: s.iplog,
+				Access: fakeAccess{blocked: &blocked}, BlockingMode: blockModes[s.blockMode],
+				Ratelimiter: fakeRL{res: []agd.RatelimitResult{agd.RatelimitResultUseGlobal, agd.RatelimitResultPass, agd.RatelimitResultDrop}[s.profRl]},
+				ID:          agd.ProfileID(s.profID), DeviceIDs: []agd.DeviceID{dev.ID}, FilteredResponseTTL: 10 * time.Second,
+				FilteringEnabled: true, QueryLogEnabled: s.qlog, IPLogEnabled: s.iplog, Deleted: s.devKind == "deleted",
 			}
 
 			return prof, dev, nil
@@ -1156,42 +1371,54 @@ func newFixture(seed uint64) (f *fixture) {
 		}
 	}
 	pdb := stack.NotFoundProfileDB()
-	pdb.OnProfileByLinkedIP = func(context.Context, netip.Addr) (*agd.Profile, *agd.Device, error) { return lookup() }
-	pdb.OnProfileByDeviceID = func(context.Context, agd.DeviceID) (*agd.Profile, *agd.Device, error) { return lookup() }
-	pdb.OnProfileByDedicatedIP = func(context.Context, netip.Addr) (*agd.Profile, *agd.Device, error) { return lookup() }
+	pdb.OnProfileByLinkedIP = func(ctx context.Context, _ netip.Addr) (*agd.Profile, *agd.Device, error) { return lookup(ctx) }
+	pdb.OnProfileByDeviceID = func(ctx context.Context, _ agd.DeviceID) (*agd.Profile, *agd.Device, error) { return lookup(ctx) }
+	pdb.OnProfileByDedicatedIP = func(ctx context.Context, _ netip.Addr) (*agd.Profile, *agd.Device, error) { return lookup(ctx) }
 	flt := &agdtest.Filter{
-		OnFilterRequest: func(_ context.Context, req *filter.Request) (filter.Result, error) {
-			s := f.cur
+		OnFilterRequest: func(ctx context.Context, req *filter.Request) (filter.Result, error) {
+			s := f.specCtx(ctx)
 			s.filterReqCalls++
 			s.gotReq = s.mkRes(s.reqKind, s.reqList, s.reqRule, req.DNS)
 			if s.ctxErr {
 				s.cancel()
 			}
+			f.yield()
 
 			return s.gotReq, nil
 		},
-		OnFilterResponse: func(_ context.Context, resp *filter.Response) (filter.Result, error) {
-			s := f.cur
+		OnFilterResponse: func(ctx context.Context, resp *filter.Response) (filter.Result, error) {
+			s := f.specCtx(ctx)
 			s.filterRespCalls++
 			s.gotResp = s.mkRes(s.respKind, s.respList, s.respRule, nil)
+			f.yield()
 
 			return s.gotResp, nil
 		},
 	}
-	fs, path := newFS("stack.jsonl", seed)
-	f.logPath = path
+	f.fs, f.logPath = newFS(map[bool]string{false: "stack.jsonl", true: "cstack.jsonl"}[conc], seed)
 	ql := &agdtest.QueryLog{OnWrite: func(ctx context.Context, e *querylog.Entry) error {
-		werr := fs.Write(ctx, e)
-		data, rerr := os.ReadFile(path)
-		hlib.Must(rerr)
-		chunk := append([]byte{}, data[min(f.logOff, int64(len(data))):]...)
-		f.logOff = int64(len(data))
-		f.logs = append(f.logs, logged{e: *e, chunk: chunk})
+		s := f.specCtx(ctx)
+		cp := *e
+		f.yield()
+		werr := f.fs.Write(ctx, e)
+		var chunk []byte
+		if !f.conc {
+			data, rerr := os.ReadFile(f.logPath)
+			hlib.Must(rerr)
+			chunk = append([]byte{}, data[min(f.logOff, int64(len(data))):]...)
+			f.logOff = int64(len(data))
+		}
+		s.mu.Lock()
+		s.logs = append(s.logs, logged{e: cp, chunk: chunk})
+		s.mu.Unlock()
 
 		return werr
 	}}
 	f.servers["dns"] = stack.NewServer("dns", agd.ProtoDNS, true)
 	f.servers["dot"] = stack.NewServer("dot", agd.ProtoDoT, true, &agd.ServerBindData{AddrPort: netip.MustParseAddrPort("192.0.2.2:853")})
+	f.servers["doh"] = stack.NewServer("doh", agd.ProtoDoH, true, &agd.ServerBindData{AddrPort: netip.MustParseAddrPort("192.0.2.2:443")})
+	f.servers["doq"] = stack.NewServer("doq", agd.ProtoDoQ, true, &agd.ServerBindData{AddrPort: netip.MustParseAddrPort("192.0.2.2:784")})
+	f.servers["dnscrypt"] = stack.NewServer("dnscrypt", agd.ProtoDNSCrypt, true, &agd.ServerBindData{AddrPort: netip.MustParseAddrPort("192.0.2.2:5443")})
 	f.servers["dnsif"] = stack.NewServer("dnsif", agd.ProtoDNS, false, &agd.ServerBindData{
 		ListenConfig: &net.ListenConfig{},
 		PrefixAddr:   &agdnet.PrefixNetAddr{Prefix: netip.MustParsePrefix("192.0.2.16/28"), Net: "udp", Port: 53},
@@ -1201,14 +1428,23 @@ func newFixture(seed uint64) (f *fixture) {
 		Cloner:    cloner,
 		ProfileDB: pdb,
 		QueryLog:  ql,
-		Servers:   []*agd.Server{f.servers["dns"], f.servers["dot"], f.servers["dnsif"]},
+		Servers: []*agd.Server{f.servers["dns"], f.servers["dot"], f.servers["dnsif"], f.servers["doh"], f.servers["doq"],
+			f.servers["dnscrypt"]},
 		Access: &agdtest.AccessManager{
-			OnIsBlockedHost: func(string, uint16) bool { return f.cur.gbh },
-			OnIsBlockedIP:   func(netip.Addr) bool { return f.cur.gbi },
+			OnIsBlockedHost: func(host string, _ uint16) bool { return host == "globally-blocked.example" },
+			OnIsBlockedIP: func(ip netip.Addr) bool {
+				if s := f.specAddr(ip); s != nil {
+					return s.gbi
+				}
+
+				return false
+			},
 		},
 		RateLimit: &agdtest.RateLimit{
-			OnIsRateLimited: func(context.Context, *dns.Msg, netip.Addr) (bool, bool, error) {
-				return f.cur.rlDrop, f.cur.allowlisted && !f.cur.rlDrop, nil
+			OnIsRateLimited: func(ctx context.Context, _ *dns.Msg, _ netip.Addr) (bool, bool, error) {
+				s := f.specCtx(ctx)
+
+				return s.rlDrop, s.allowlisted && !s.rlDrop, nil
 			},
 			OnCountResponses: func(context.Context, *dns.Msg, netip.Addr) {},
 		},
@@ -1217,13 +1453,21 @@ func newFixture(seed uint64) (f *fixture) {
 			OnHasListID: func(filter.ID) bool { return true },
 		},
 		GeoData: func(_ string, ip netip.Addr) (*geoip.Location, error) {
-			s := f.cur
+			s := f.specAddr(ip)
+			f.yield()
+			if s == nil {
+				// The ECS subnet of the request.
+				return nil, nil
+			}
 			if isRespIP(ip) {
 				if s.geoCtry == "" {
 					return nil, nil
 				}
 
 				return &geoip.Location{Country: geoip.Country(s.geoCtry), ASN: 7}, nil
+			}
+			if ip != s.ip.Unmap() {
+				return nil, nil
 			}
 			if !s.hasLoc {
 				return nil, nil
@@ -1232,32 +1476,36 @@ func newFixture(seed uint64) (f *fixture) {
 			return &geoip.Location{Country: geoip.Country(s.locCtry), Continent: geoip.ContinentEU, ASN: geoip.ASN(s.locASN)}, nil
 		},
 		Upstream: dnsserver.HandlerFunc(func(ctx context.Context, rw dnsserver.ResponseWriter, req *dns.Msg) error {
-			s := f.cur
+			s := f.specCtx(ctx)
 			s.upstreamCalls++
+			f.yield()
 			if s.upErr {
 				return errors.New("verif: upstream failure")
 			}
 
-			return rw.WriteMsg(ctx, req, mkAnswer(req, s.orig, s.origVariant, net.IP{192, 0, 2, 77}))
+			return rw.WriteMsg(ctx, req, mkAnswer(req, s.orig, s.origVariant, s.respAddr))
 		}),
 	})
 
 	return f
 }
 
-// serve runs the scripted request and returns what the client's writer got.
-func (f *fixture) serve(s *spec) (rw *recRW, err error) {
-	f.cur = s
+// serve runs the scripted request and records what the client's writer got.
+func (f *fixture) serve(s *spec) {
+	if f.conc {
+		f.byID.Store(ridOf(s.idx), s)
+		f.byAddr.Store(s.ip.Unmap(), s)
+		f.byAddr.Store(netip.AddrFrom4([4]byte(s.respAddr)), s)
+	} else {
+		f.cur = s
+	}
 	srv := f.servers[s.srv]
 	h := f.st.Handlers[dnssvc.HandlerKey{Server: srv, ServerGroup: f.st.Group}]
 	ctx, cancel := context.WithCancel(context.Background())
 	defer cancel()
 	s.cancel = cancel
-	local := netip.MustParseAddrPort("192.0.2.2:53")
-	switch s.srv {
-	case "dot":
-		local = netip.MustParseAddrPort("192.0.2.2:853")
-	case "dnsif":
+	local := srv.BindData()[0].AddrPort
+	if s.srv == "dnsif" {
 		local = netip.MustParseAddrPort("192.0.2.17:53")
 	}
 	port := uint16(12345)
@@ -1267,43 +1515,237 @@ func (f *fixture) serve(s *spec) (rw *recRW, err error) {
 	remote := netip.AddrPortFrom(s.ip.Unmap(), port)
 	ctx = dnsserver.ContextWithServerInfo(ctx, &dnsserver.ServerInfo{Name: string(srv.Name), Addr: local.String(), Proto: srv.Protocol})
 	sri := &dnsserver.RequestInfo{StartTime: time.UnixMilli(s.startMs)}
-	if s.srv == "dot" {
+	switch s.srv {
+	case "dot", "doq", "doh":
 		sri.TLSServerName = strings.ToLower(s.devID) + "." + stack.DeviceDomain
+		if s.srv == "doh" {
+			sri.URL = &url.URL{Path: "/dns-query"}
+		}
 	}
 	ctx = dnsserver.ContextWithRequestInfo(ctx, sri)
 	ctx = agd.WithRequestID(ctx, ridOf(s.idx))
-	rw = &recRW{fail: s.writeErr}
-	if srv.Protocol == agd.ProtoDNS {
+	rw := &recRW{fail: s.writeErr}
+	if srv.Protocol == agd.ProtoDNS || srv.Protocol == agd.ProtoDoQ || srv.Protocol == agd.ProtoDNSCrypt {
 		rw.laddr, rw.raddr = net.UDPAddrFromAddrPort(local), net.UDPAddrFromAddrPort(remote)
 	} else {
 		rw.laddr, rw.raddr = net.TCPAddrFromAddrPort(local), net.TCPAddrFromAddrPort(remote)
 	}
+	s.rw = rw
 	func() {
 		defer func() {
 			if p := recover(); p != nil {
-				err = fmt.Errorf("panic: %v", p)
+				s.serr = fmt.Errorf("panic: %v", p)
 			}
 		}()
-		err = h.ServeDNS(ctx, rw, s.request())
+		s.serr = h.ServeDNS(ctx, rw, s.request())
 	}()
-
-	return rw, err
 }
 
-func (s *spec) opLine(blocked respDesc) string {
+// prepare computes the op line of s; the blocked response is described by
+// the harness's own constructor for the blocking mode in force.
+func (f *fixture) prepare(s *spec) {
+	msgs := f.msgs
+	if s.attributedIn() {
+		msgs = f.modeMsg[s.blockMode]
+	}
+	blockErr := false
+	blockedMsg, err := msgs.NewBlockedResp(s.request())
+	if err != nil {
+		blockErr = true
+		s.blocked = respDesc{rcode: dns.RcodeServerFailure, ip: "none"}
+	} else {
+		s.blocked = describe(blockedMsg)
+	}
 	ip := s.ip.Unmap().String()
-	loc := s.hasLoc
 	if s.reqKind == 0 {
 		s.reqList, s.reqRule = "", ""
 	}
 	if s.respKind == 0 {
 		s.respList, s.respRule = "", ""
 	}
-	return strings.Join([]string{"serve", b2s(s.port0), s.devKind, hx(s.profID), b2s(s.qlog), b2s(s.iplog), hx(s.devID),
-		b2s(s.gbi), b2s(s.gbh), b2s(s.pb), b2s(s.rlDrop && s.srv != "dot"), b2s(s.special), b2s(s.debug), b2s(s.adWanted), b2s(s.ctxErr), b2s(s.upErr),
-		b2s(s.writeErr), kinds[s.reqKind], hx(s.reqList), hx(s.reqRule), kinds[s.respKind], hx(s.respList), hx(s.respRule), "0",
+	s.line = strings.Join([]string{"serve", b2s(s.port0), s.devKind, hx(s.profID), b2s(s.qlog), b2s(s.iplog), hx(s.devID),
+		b2s(s.gbi), b2s(s.gbh), b2s(s.pb), b2s(s.ecs == 2), b2s(s.rlDrop), fmt.Sprint(s.profRl), b2s(s.special), b2s(s.debug),
+		b2s(s.adWanted), b2s(s.ctxErr), b2s(s.upErr),
+		b2s(s.writeErr), kinds[s.reqKind], hx(s.reqList), hx(s.reqRule), kinds[s.respKind], hx(s.respList), hx(s.respRule), b2s(blockErr),
 		hx(s.name), fmt.Sprint(s.qtype), fmt.Sprint(uint8(s.proto())), hx(ip), hx(ridOf(s.idx).String()), fmt.Sprint(s.startMs),
-		b2s(loc), hx(s.locCtry), fmt.Sprint(s.locASN), s.orig.tokens(), blocked.tokens(), s.mod.tokens(), hx(s.geoCtry)}, " ")
+		b2s(s.hasLoc), hx(s.locCtry), fmt.Sprint(s.locASN), s.orig.tokens(), s.blocked.tokens(), s.mod.tokens(), hx(s.geoCtry)}, " ")
+}
+
+// dropped is the harness's own reading of "dropped or access-blocked".
+func (s *spec) dropped() bool {
+	attributed := s.attributedIn()
+	limited := s.rlDrop
+	if attributed && s.profRl == 1 {
+		limited = false
+	} else if attributed && s.profRl == 2 {
+		limited = true
+	}
+
+	return s.port0 || s.gbi || s.gbh || (attributed && s.pb) || (limited && s.proto() == agd.ProtoDNS) ||
+		s.devKind == "unknown" && s.srv != "dnscrypt" || s.devKind == "error" && s.srv != "dnscrypt"
+}
+
+// oracle checks the property on what one request produced, without the model.
+func oracle(r *hlib.Result, s *spec, bills []stack.BillRec, checkBills bool) {
+	replay := map[string]any{"campaign": "stack", "op": s.line, "serve_error": fmt.Sprint(s.serr)}
+	logs := s.logs
+	attributed := s.attributedIn()
+	dropped := s.dropped()
+	if s.serr != nil && strings.HasPrefix(s.serr.Error(), "panic:") {
+		r.Violate("panic-while-serving", "the handler panicked: "+s.serr.Error(), replay)
+	}
+	if len(logs) > 1 {
+		r.Violate("several-entries-for-one-request", fmt.Sprintf("%d log entries for one request", len(logs)), replay)
+	}
+	if len(logs) > 0 && !attributed {
+		r.Violate("logged-without-profile", "a query that was not attributed to a profile ("+s.devKind+"/"+s.srv+") was logged", replay)
+	}
+	if len(logs) > 0 && attributed && !s.qlog {
+		r.Violate("logged-with-querylog-disabled", "profile has query logging disabled but the query was logged", replay)
+	}
+	if len(logs) > 0 && (dropped || s.ecs == 2) {
+		r.Violate("dropped-or-blocked-query-recorded", "a dropped / access-blocked / malformed query was logged", replay)
+	}
+	if checkBills {
+		if len(bills) > 1 {
+			r.Violate("several-bills-for-one-request", fmt.Sprintf("%d billing records for one request", len(bills)), replay)
+		}
+		if len(bills) > 0 && !attributed {
+			r.Violate("billed-without-profile", "a query that was not attributed to a profile ("+s.devKind+"/"+s.srv+") was billed", replay)
+		}
+		if len(bills) > 0 && (dropped || s.ecs == 2) {
+			r.Violate("dropped-or-blocked-query-recorded", "a dropped / access-blocked / malformed query was billed", replay)
+		}
+		for _, b := range bills {
+			if attributed && (string(b.Dev) != s.devID || b.Proto != s.proto()) {
+				r.Violate("bill-not-own-request", fmt.Sprintf("billing record %+v is not this request's", b), replay)
+			}
+		}
+	}
+	for _, lg := range logs {
+		e := lg.e
+		if e.RemoteIP.IsValid() && !s.iplog {
+			r.Violate("ip-logged-with-iplog-disabled", "profile has IP logging disabled but the entry has the client address "+e.RemoteIP.String(), replay)
+		}
+		if lg.chunk != nil && bytes.Contains(lg.chunk, []byte(`"ip"`)) && !s.iplog {
+			r.Violate("ip-logged-with-iplog-disabled", "profile has IP logging disabled but the line has an ip property", replay)
+		}
+		if e.RemoteIP.IsValid() && e.RemoteIP != s.ip.Unmap() {
+			r.Violate("entry-wrong-ip", "logged address is not the client's", replay)
+		}
+		own := e.DomainFQDN == s.name && e.RequestType == s.qtype && e.Protocol == s.proto() &&
+			string(e.ProfileID) == s.profID && string(e.DeviceID) == s.devID && e.RequestID == ridOf(s.idx) &&
+			e.Time.UnixMilli() == s.startMs && e.RequestResult == s.gotReq
+		if !own {
+			r.Violate("entry-not-own-request", fmt.Sprintf("entry %+v does not describe request %s", e, s.line), replay)
+		}
+		if s.reqKind != 4 && e.ResponseResult != s.gotResp {
+			r.Violate("entry-not-own-request", "entry's response verdict is not the one the filter gave for this request", replay)
+		}
+		if s.reqKind == 4 && e.ResponseResult != nil {
+			r.Violate("entry-not-own-request", "entry has a response verdict although the response of a rewritten request is not filtered", replay)
+		}
+		if s.rw.msg != nil && int(e.ResponseCode) != s.rw.msg.Rcode {
+			r.Violate("entry-wrong-rcode", fmt.Sprintf("entry rcode %d, client got %d", e.ResponseCode, s.rw.msg.Rcode), replay)
+		}
+		if lg.chunk != nil {
+			checkLine(r, "stack", &e, lg.chunk, replay)
+			checkLineOwn(r, s, lg.chunk, replay)
+		}
+	}
+}
+
+// checkLineOwn compares the JSON line with the request itself (not with the
+// Entry the middleware built): name, type, protocol, profile, device, verdict.
+func checkLineOwn(r *hlib.Result, s *spec, chunk []byte, replay any) {
+	var obj struct {
+		IP *string `json:"ip"`
+		U  string  `json:"u"`
+		B  string  `json:"b"`
+		I  string  `json:"i"`
+		N  string  `json:"n"`
+		L  string  `json:"l"`
+		M  string  `json:"m"`
+		Q  int     `json:"q"`
+		P  int     `json:"p"`
+		F  int     `json:"f"`
+		T  int64   `json:"t"`
+	}
+	if err := json.Unmarshal(bytes.TrimRight(chunk, "\n"), &obj); err != nil {
+		return // reported by checkLine
+	}
+	code, list, rule := docCode(s.gotReq, s.gotResp)
+	if s.reqKind == 4 {
+		code, list, rule = docCode(s.gotReq, nil)
+	}
+	ok := obj.U == ridOf(s.idx).String() && obj.B == goValid(s.profID) && obj.I == goValid(s.devID) && obj.N == goValid(s.name) &&
+		obj.Q == int(s.qtype) && obj.P == int(s.proto()) && obj.F == code && obj.L == goValid(list) && obj.M == goValid(rule) &&
+		obj.T == s.startMs
+	if !ok {
+		r.Violate("line-not-own-request", fmt.Sprintf("log line %q does not describe request %s", truncateB(chunk, 300), s.line), replay)
+	}
+	if obj.IP != nil && (!s.iplog || *obj.IP != s.ip.Unmap().String()) {
+		r.Violate("ip-logged-with-iplog-disabled", "log line has ip="+*obj.IP+" (iplog="+b2s(s.iplog)+", client "+s.ip.Unmap().String()+")", replay)
+	}
+}
+
+// gotEffects renders the observed effects the way the model driver does.
+func gotEffects(s *spec, ruleStat bool, bills []stack.BillRec, billKnown bool) string {
+	got := "resp=-"
+	if s.rw.msg != nil {
+		got = "resp=" + describe(s.rw.msg).String()
+	}
+	if ruleStat {
+		got += " rs=1"
+	} else {
+		got += " rs=-"
+	}
+	switch {
+	case !billKnown:
+		got += " bill=?"
+	case len(bills) > 0:
+		b := bills[0]
+		got += fmt.Sprintf(" bill=%s,%s,%d,%d", hx(string(b.Dev)), hx(string(b.Ctry)), uint32(b.ASN), uint8(b.Proto))
+	default:
+		got += " bill=-"
+	}
+	if len(s.logs) > 0 {
+		got += " log=" + entryTokens(&s.logs[0].e, 0)
+	} else {
+		got += " log=-"
+	}
+
+	return got
+}
+
+func (s *spec) class() string {
+	logs := s.logs
+	switch {
+	case s.dropped():
+		return "dropped"
+	case s.ecs == 2:
+		return "bad-ecs"
+	case s.special:
+		return "special"
+	case s.ctxErr || s.upErr:
+		return "failed"
+	case s.debug:
+		return "debug"
+	case s.writeErr:
+		return "write-failed"
+	case len(logs) > 0 && logs[0].e.RemoteIP.IsValid():
+		return "logged-with-ip"
+	case len(logs) > 0:
+		return "logged-without-ip"
+	case s.attributedIn():
+		return "profile-not-logged"
+	case s.devKind == "authfail":
+		return "authfail"
+	case s.devKind == "deleted":
+		return "deleted-profile"
+	}
+
+	return "served-anon"
 }
 
 func stackCampaign(o *hlib.Opts, r *hlib.Result, m *hlib.Model) {
@@ -1312,9 +1754,8 @@ func stackCampaign(o *hlib.Opts, r *hlib.Result, m *hlib.Model) {
 	if o.Thorough() {
 		n = 300000
 	}
-	f := newFixture(rng.Uint64())
+	f := newFixture(rng.Uint64(), false)
 	var lines, gots []string
-	var specs []*spec
 	flush := func() {
 		if len(lines) == 0 {
 			return
@@ -1328,127 +1769,29 @@ func stackCampaign(o *hlib.Opts, r *hlib.Result, m *hlib.Model) {
 				break
 			}
 		}
-		lines, gots, specs = nil, nil, nil
+		lines, gots = nil, nil
 	}
 	for i := 0; i < n; i++ {
-		s := genSpec(rng, i)
-		blockedMsg, err := f.msgs.NewBlockedResp(s.request())
-		hlib.Must(err)
-		blocked := describe(blockedMsg)
-		line := s.opLine(blocked)
-		f.logs = nil
+		s := genSpec(rng, i, false)
+		f.prepare(s)
 		_, _ = f.st.Effects.TakeLog()
 		before := f.st.Effects.Snapshot()
-		rw, serr := f.serve(s)
+		f.serve(s)
 		after := f.st.Effects.Snapshot()
 		_, bills := f.st.Effects.TakeLog()
-		logs := f.logs
-		replay := map[string]any{"campaign": "stack", "op": line, "serve_error": fmt.Sprint(serr)}
 
-		// ---- property oracle (independent of the model) ----
-		attributed := s.devKind == "ok"
-		dropped := s.port0 || s.gbi || s.gbh || (attributed && s.pb) || (s.rlDrop && s.srv != "dot") ||
-			s.devKind == "unknown" || s.devKind == "error"
-		if len(logs) > 1 {
-			r.Violate("several-entries-for-one-request", fmt.Sprintf("%d log entries for one request", len(logs)), replay)
-		}
-		if len(bills) > 1 {
-			r.Violate("several-bills-for-one-request", fmt.Sprintf("%d billing records for one request", len(bills)), replay)
-		}
-		if len(logs) > 0 && !attributed {
-			r.Violate("logged-without-profile", "a query that was not attributed to a profile ("+s.devKind+") was logged", replay)
-		}
-		if len(bills) > 0 && !attributed {
-			r.Violate("billed-without-profile", "a query that was not attributed to a profile ("+s.devKind+") was billed", replay)
-		}
-		if len(logs) > 0 && attributed && !s.qlog {
-			r.Violate("logged-with-querylog-disabled", "profile has query logging disabled but the query was logged", replay)
-		}
-		if (len(logs) > 0 || len(bills) > 0) && dropped {
-			r.Violate("dropped-or-blocked-query-recorded", "a dropped / access-blocked query was logged or billed", replay)
-		}
-		for _, b := range bills {
-			if attributed && (string(b.Dev) != s.devID || b.Proto != s.proto()) {
-				r.Violate("bill-not-own-request", fmt.Sprintf("billing record %+v is not this request's", b), replay)
-			}
-		}
-		for _, lg := range logs {
-			e := lg.e
-			if e.RemoteIP.IsValid() && !s.iplog {
-				r.Violate("ip-logged-with-iplog-disabled", "profile has IP logging disabled but the entry has the client address "+e.RemoteIP.String(), replay)
-			}
-			if bytes.Contains(lg.chunk, []byte(`"ip"`)) && !s.iplog {
-				r.Violate("ip-logged-with-iplog-disabled", "profile has IP logging disabled but the line has an ip property", replay)
-			}
-			if e.RemoteIP.IsValid() && e.RemoteIP != s.ip.Unmap() {
-				r.Violate("entry-wrong-ip", "logged address is not the client's", replay)
-			}
-			own := e.DomainFQDN == s.name && e.RequestType == s.qtype && e.Protocol == s.proto() &&
-				string(e.ProfileID) == s.profID && string(e.DeviceID) == s.devID && e.RequestID == ridOf(s.idx) &&
-				e.Time.UnixMilli() == s.startMs && e.RequestResult == s.gotReq
-			if !own {
-				r.Violate("entry-not-own-request", fmt.Sprintf("entry %+v does not describe request %s", e, line), replay)
-			}
-			if s.reqKind != 4 && e.ResponseResult != s.gotResp {
-				r.Violate("entry-not-own-request", "entry's response verdict is not the one the filter gave for this request", replay)
-			}
-			if rw.msg != nil && int(e.ResponseCode) != rw.msg.Rcode {
-				r.Violate("entry-wrong-rcode", fmt.Sprintf("entry rcode %d, client got %d", e.ResponseCode, rw.msg.Rcode), replay)
-			}
-			checkLine(r, "stack", &e, lg.chunk, replay)
-		}
+		// Property oracle first, independent of the model.
+		oracle(r, s, bills, true)
 
-		// ---- correspondence ----
-		got := "resp=-"
-		if rw.msg != nil {
-			got = "resp=" + describe(rw.msg).String()
-		}
-		if after[3] > before[3] {
-			got += " rs=1"
-		} else {
-			got += " rs=-"
-		}
-		if len(bills) > 0 {
-			b := bills[0]
-			got += fmt.Sprintf(" bill=%s,%s,%d,%d", hx(string(b.Dev)), hx(string(b.Ctry)), uint32(b.ASN), uint8(b.Proto))
-		} else {
-			got += " bill=-"
-		}
-		if len(logs) > 0 {
-			got += " log=" + entryTokens(&logs[0].e, 0)
-		} else {
-			got += " log=-"
-		}
-		lines = append(lines, line)
-		gots = append(gots, got)
-		specs = append(specs, s)
-
-		class := "served-anon"
-		switch {
-		case dropped:
-			class = "dropped"
-		case s.special:
-			class = "special"
-		case s.ctxErr || s.upErr:
-			class = "failed"
-		case s.debug:
-			class = "debug"
-		case s.writeErr:
-			class = "write-failed"
-		case len(logs) > 0 && logs[0].e.RemoteIP.IsValid():
-			class = "logged-with-ip"
-		case len(logs) > 0:
-			class = "logged-without-ip"
-		case attributed:
-			class = "profile-not-logged"
-		case s.devKind == "authfail":
-			class = "authfail"
-		}
+		lines = append(lines, s.line)
+		gots = append(gots, gotEffects(s, after[3] > before[3], bills, true))
+		class := s.class()
 		r.Count("stack." + class)
 		r.Count("stack.dev_" + s.devKind)
-		r.Case(canonStack(line), class != "served-anon")
+		r.Count("stack.srv_" + s.srv)
+		r.Case(canonStack(s.line), class != "served-anon")
 		if i < 400 && (class == "logged-with-ip" || class == "profile-not-logged" || class == "dropped") {
-			r.Sample(map[string]any{"campaign": "stack", "class": class, "op": line, "effects": got}, 9)
+			r.Sample(map[string]any{"campaign": "stack", "class": class, "op": s.line, "effects": gots[len(gots)-1]}, 9)
 		}
 		if len(lines) >= 2000 {
 			flush()
@@ -1458,11 +1801,156 @@ func stackCampaign(o *hlib.Opts, r *hlib.Result, m *hlib.Model) {
 	r.Traces++
 }
 
+// cstackCampaign serves batches of scripted requests concurrently through one
+// handler stack with the real FileSystem log: every request's entry and line
+// must still be its own, and the file must consist of exactly the lines of
+// the requests that were logged.
+func cstackCampaign(o *hlib.Opts, r *hlib.Result, m *hlib.Model) {
+	rng := o.Rand("cstack")
+	batches, per := 12, 400
+	if o.Thorough() {
+		batches, per = 150, 600
+	}
+	f := newFixture(rng.Uint64(), true)
+	var fileOff int64
+	for b := 0; b < batches; b++ {
+		specs := make([]*spec, per)
+		for i := range specs {
+			specs[i] = genSpec(rng, b*per+i, true)
+			f.prepare(specs[i])
+		}
+		g := []int{4, 8, 16, 32}[rng.IntN(4)]
+		_, _ = f.st.Effects.TakeLog()
+		before := f.st.Effects.Snapshot()
+		var wg sync.WaitGroup
+		next := make(chan *spec)
+		for w := 0; w < g; w++ {
+			wg.Add(1)
+			go func() {
+				defer wg.Done()
+				for s := range next {
+					f.serve(s)
+				}
+			}()
+		}
+		for _, s := range specs {
+			next <- s
+		}
+		close(next)
+		wg.Wait()
+		after := f.st.Effects.Snapshot()
+		_, bills := f.st.Effects.TakeLog()
+		data, err := os.ReadFile(f.logPath)
+		hlib.Must(err)
+		data = data[min(fileOff, int64(len(data))):]
+		fileOff += int64(len(data))
+		replayB := map[string]any{"campaign": "cstack", "batch": b, "goroutines": g, "requests": per}
+
+		// ---- property oracle: the file ----
+		byU := map[string]*spec{}
+		for _, s := range specs {
+			byU[ridOf(s.idx).String()] = s
+		}
+		if len(data) > 0 && data[len(data)-1] != '\n' {
+			r.Violate("file-unterminated", "log file does not end with a line feed after concurrent requests", replayB)
+		}
+		recs := bytes.SplitAfter(data, []byte("\n"))
+		if len(recs) > 0 && len(recs[len(recs)-1]) == 0 {
+			recs = recs[:len(recs)-1]
+		}
+		lineOf := map[*spec][]byte{}
+		for _, rec := range recs {
+			var probe struct {
+				U string `json:"u"`
+			}
+			if err = json.Unmarshal(bytes.TrimRight(rec, "\n"), &probe); err != nil {
+				r.Violate("line-not-json", fmt.Sprintf("cstack: line is not JSON (%v): %q", err, truncateB(rec, 300)), replayB)
+
+				continue
+			}
+			s, known := byU[probe.U]
+			if !known || lineOf[s] != nil {
+				r.Violate("file-line-not-one-to-one", fmt.Sprintf("cstack: line for request %q is unknown or duplicated", probe.U), replayB)
+
+				continue
+			}
+			lineOf[s] = rec
+		}
+		// ---- property oracle: every request ----
+		nLogged, expBills := 0, 0
+		var lines, gots []string
+		for _, s := range specs {
+			for i := range s.logs {
+				s.logs[i].chunk = lineOf[s]
+				if lineOf[s] == nil {
+					r.Violate("file-line-missing", "a written entry has no line in the file", map[string]any{"campaign": "cstack", "op": s.line})
+				}
+			}
+			if len(s.logs) == 0 && lineOf[s] != nil {
+				r.Violate("file-line-not-one-to-one", "the file has a line for a request for which no entry was written",
+					map[string]any{"campaign": "cstack", "op": s.line})
+			}
+			nLogged += len(s.logs)
+			oracle(r, s, nil, false)
+			if s.attributedIn() && !s.dropped() && s.ecs != 2 {
+				expBills++
+			}
+			lines = append(lines, s.line)
+			gots = append(gots, gotEffects(s, false, nil, false))
+			r.Count("cstack." + s.class())
+			r.Case("c"+canonStack(s.line), s.class() != "served-anon")
+		}
+		if len(bills) > expBills {
+			r.Violate("billed-without-profile", fmt.Sprintf("cstack: %d billing records for %d servable attributed requests", len(bills), expBills), replayB)
+		}
+		if len(recs) != nLogged {
+			r.Violate("file-line-count", fmt.Sprintf("cstack: %d entries written, %d lines in the file", nLogged, len(recs)), replayB)
+		}
+		// ---- correspondence ----
+		answers := m.Batch(lines)
+		mBills, mRS := 0, 0
+		reported := false
+		for i := range lines {
+			a := strings.Fields(answers[i])
+			if len(a) < 4 {
+				r.Disagree("cstack", "model: "+answers[i], map[string]any{"campaign": "cstack", "ops": []string{lines[i]}})
+
+				break
+			}
+			if a[1] != "rs=-" {
+				mRS++
+			}
+			if a[2] != "bill=-" {
+				mBills++
+			}
+			a[1], a[2] = "rs=-", "bill=?"
+			if want := strings.Join(a, " "); want != gots[i] && !reported {
+				reported = true
+				r.Disagree("cstack", fmt.Sprintf("stack=%q model=%q", gots[i], want), map[string]any{"campaign": "cstack", "ops": []string{lines[i]}})
+			}
+		}
+		if int64(mBills) != after[2]-before[2] || int64(mRS) != after[3]-before[3] || len(bills) != mBills {
+			r.Disagree("cstack-counts", fmt.Sprintf("billing records %d (model %d), rule statistics %d (model %d)",
+				after[2]-before[2], mBills, after[3]-before[3], mRS), replayB)
+		}
+		r.Count(fmt.Sprintf("cstack.goroutines_%d", g))
+		if b == 0 {
+			r.Sample(map[string]any{"campaign": "cstack", "goroutines": g, "requests": per, "lines": len(recs)}, 9)
+		}
+		for _, s := range specs {
+			f.byID.Delete(ridOf(s.idx))
+			f.byAddr.Delete(s.ip.Unmap())
+			f.byAddr.Delete(netip.AddrFrom4([4]byte(s.respAddr)))
+		}
+		r.Traces++
+	}
+}
+
 // canonStack drops the request ID from an op line.
 func canonStack(l string) string {
 	f := strings.Fields(l)
-	if len(f) > 28 {
-		f[28] = "_"
+	if len(f) > 30 {
+		f[30] = "_"
 	}
 
 	return strings.Join(f, " ")
